@@ -764,6 +764,18 @@ func TestVerif_C06_Signature(t *testing.T) {
 			r.Count("mut:resigned-with-wrong-secret", 1)
 			p.expectReject("signature:mutated-accepted:resigned-with-wrong-secret", m, nil)
 		}
+		for _, k := range []struct{ name, id, secret string }{
+			{"resigned-by-unknown-key-id-with-empty-secret", "AKIDunknown" + randAlnum(rng, 3), ""},
+			{"resigned-by-unknown-key-id-with-own-secret", "AKIDunknown" + randAlnum(rng, 3), randAlnum(rng, 12)},
+			{"resigned-by-known-key-id-with-empty-secret", cfg.KeyID, ""},
+		} {
+			m := unsignedCopy(cfg, sw)
+			pp := cfg.params(ts)
+			pp.KeyID, pp.Secret = k.id, k.secret
+			sigV4Header(&m, pp)
+			r.Count("mut:"+k.name, 1)
+			p.expectReject("signature:mutated-accepted:"+k.name, m, nil)
+		}
 		if cfg.ttl() > 0 {
 			for _, dir := range []int{-1, +1} {
 				m := unsignedCopy(cfg, sw)
